@@ -13,13 +13,23 @@ AbsMin(n, m) == LET am == IF m = MinInt THEN MaxInt ELSE Abs(m)
                     an == IF n = MinInt THEN MaxInt ELSE Abs(n)
                 IN Min2(an, am)
 
-\* admitted alternatives to ApplyRand (equally within the property): CODE.RAND with a limit of exactly 1 may push one leaf
+\* admitted alternatives to what Apply says (equally within the properties; found with property-preserving changes):
+\* CODE.RAND with a limit of exactly 1 may push one leaf
 AltRand(n, s) ==
   IF n = "CODE.RAND" /\ Has(s, "int", 1) /\ AbsMin(s.int[1], s.cfg.max_rand_points) = 1
   THEN <<FiredH(PushOn(PopN(s, "int", 1), "code", EmptyList), <<HoleAB(<<"code", 1>>, "randcode", 1, SetAsSeq(DOMAIN s.bind))>>)>>
   \* FLOAT.RAND between bounds of which one is infinite: no uniform value exists; nothing is as good as a value inside
   ELSE IF n = "FLOAT.RAND" /\ FLt(s.cfg.min_f, s.cfg.max_f) /\ (~FIsFinite(s.cfg.min_f) \/ ~FIsFinite(s.cfg.max_f))
   THEN <<Unfired(s)>>
+  \* NAME.RANDBOUNDNAME while nothing is bound: the property speaks of the case that a bound name exists; a fresh name (the
+  \* implementation) or nothing
+  ELSE IF n = "NAME.RANDBOUNDNAME" /\ DOMAIN s.bind = {} THEN <<Unfired(s)>>
+  \* INDEX.DESTINATION as its doc comment has it ("pushes the destination field of the top INDEX to the INTEGER stack");
+  \* the implementation pushes a fresh index with that destination (ApplyCodeFamily): the documentation contradicts the code
+  ELSE IF n = "INDEX.DESTINATION" /\ Has(s, "index", 1) THEN <<Fired(PushOn(s, "int", s.index[1].dst))>>
+  \* LIST.GET of an empty record: "LIST.GET followed by execution" moves nothing either way - the empty list on EXEC or not
+  ELSE IF n = "LIST.GET" /\ Has(s, "int", 1) /\ s.code # <<>> /\ s.code[Clamp(s.int[1], Len(s.code)) + 1] = EmptyList
+  THEN <<Unfired(PopN(s, "int", 1))>>
   ELSE <<>>
 
 ApplyRand(n, s) ==
